@@ -29,6 +29,14 @@ Theorem C18_names_present items n : In n (lnames items) <-> exists i, In i items
 Proof. exact (In_lnames items n). Qed.
 Print Assumptions C18_names_present.
 
+(* 1b. the iteration order of frozenset(parsed.keys()) - and a name occurring in it under several spellings - is irrelevant:
+       any list with the same elements as the set of header names leaves the same two dicts *)
+Theorem C18_order_irrelevant items ns : (forall n, In n ns <-> In n (key_set items)) ->
+  let st := fold_left (step items) ns ([], []) in
+  (forall k, lookup k (fst st) = lookup k (fst (loop_result items))) /\ (forall m, lookup m (snd st) = lookup m (snd (loop_result items))).
+Proof. exact (loop_order_irrelevant items ns). Qed.
+Print Assumptions C18_order_irrelevant.
+
 (* 2. NO INVENTION: every entry of either dict stems from a header name that occurs, with the value [classify] assigns to it *)
 Theorem C18_no_invention items :
   (forall k v, lookup k (fst (loop_result items)) = Some v -> exists n, In n (lnames items) /\ classify items n = CRaw k v) /\
